@@ -17,6 +17,12 @@ PadsTwo == {NoPad, PAbs, PAbsR}
 PadsEx == {NoPad, PExact}
 TermsTwo == {<<8, 6>>, <<5, 4>>}   \* Resize switches between the initial size and a smaller one
 TermsNone == {}
+\* config D (C09: unhashable render-argument values)
+LoopsInfTwo == {-1, 2}
+SizesOne == {<<3, 2>>}
+DursOne == {70}
+PadsNone == {NoPad}
+Offs1 == -1..1
 Offs2 == -3..3
 Offs3 == -4..4
 =============================================================================
